@@ -71,9 +71,9 @@ def integrator():
 def rng():
     cfgs = [{"name": c, "draws": c != "N", "continuous": c == "A"} for c in ("A", "B", "N")]
     base = {"seeds": [1, 2], "configs": cfgs, "sessions": [{"events": [
-        {"ev": "Seed", "s": 1, "st": 1}, {"ev": "Run", "c": "A", "dig": 2, "st": 3, "foreign": 0, "nonglobal": 0, "mean": "na"},
-        {"ev": "Seed", "s": 2, "st": 4}, {"ev": "Run", "c": "A", "dig": 5, "st": 6, "foreign": 0, "nonglobal": 0, "mean": "na"},
-        {"ev": "Seed", "s": 1, "st": 1}, {"ev": "Run", "c": "A", "dig": 2, "st": 3, "foreign": 0, "nonglobal": 0, "mean": "ok"}]}]}
+        {"ev": "Seed", "s": 1, "st": 1}, {"ev": "Run", "c": "A", "dig": 2, "st": 3, "foreign": 0, "nonglobal": 0, "mean": "na", "cont": True},
+        {"ev": "Seed", "s": 2, "st": 4}, {"ev": "Run", "c": "A", "dig": 5, "st": 6, "foreign": 0, "nonglobal": 0, "mean": "na", "cont": True},
+        {"ev": "Seed", "s": 1, "st": 1}, {"ev": "Run", "c": "A", "dig": 2, "st": 3, "foreign": 0, "nonglobal": 0, "mean": "ok", "cont": True}]}]}
     variants = [("unchanged session", base, True)]
     v = copy.deepcopy(base); v["sessions"][0]["events"][5]["dig"] = 7
     variants.append(("same seed, same calls, different output", v, False))
